@@ -314,18 +314,16 @@ def orderedCovering (T : List Entry) (target : Option Nat) (A : Aliases) (noRais
 
 /-! ### remove_default_routes -/
 
-/-- index of the single set bit of a one-element bit set (`next(iter(s))`) -/
-def lowestBit (s : Nat) : Nat := ((List.range 25).find? (fun i => s.testBit i)).getD 0
+/-- `len(s) == 1` for a bit set of `Routes`/`None` values: `some i` iff `s = {i}` (i ≤ 24) -/
+def single (s : Nat) : Option Nat := (List.range 25).find? (fun i => s == 2 ^ i)
 
-def natPopcount (s : Nat) : Nat := (List.range 25).countP (fun i => s.testBit i)
-
-/-- the part of `_is_defaultable` that looks at the entry alone -/
+/-- the part of `_is_defaultable` that looks at the entry alone: one source, one sink, the
+source is not `None`, both are links, and the source's opposite is the sink -/
 def defaultableHead (e : Entry) : Bool :=
-  if natPopcount e.sources == 1 && natPopcount e.route == 1 && !e.sources.testBit 24 then
-    let source := lowestBit e.sources
-    let sink := lowestBit e.route
-    if source < 6 && sink < 6 then (source + 3) % 6 == sink else false
-  else false
+  match single e.sources, single e.route with
+  | some source, some sink =>
+    source != 24 && (source < 6 && sink < 6) && ((source + 3) % 6 == sink)
+  | _, _ => false
 
 /-- `_is_defaultable(i, entry, table, check)` with `later = table[i+1:]` -/
 def isDefaultable (e : Entry) (later : List Entry) (check : Bool) : Bool :=
@@ -335,11 +333,16 @@ def rdLoop (check : Bool) : List Entry → List Entry
   | [] => []
   | e :: rest => if isDefaultable e rest check then rdLoop check rest else e :: rdLoop check rest
 
-def dedupCount {α} [BEq α] (l : List α) : Nat := l.eraseDups.length
+/-- `len(set(e.mask for e in table)) == 1` -/
+def allSameMask : List Entry → Bool
+  | [] => false
+  | e :: r => r.all (fun d => d.mask == e.mask)
+
+/-- `len(table) == len(set(e.key for e in table))` -/
+def keysDistinct (T : List Entry) : Bool := decide ((T.map (·.key)).Nodup)
 
 /-- the cheap "no aliases possible" test: one mask, all keys distinct -/
-def noAliasShortcut (T : List Entry) : Bool :=
-  dedupCount (T.map (·.mask)) == 1 && T.length == dedupCount (T.map (·.key))
+def noAliasShortcut (T : List Entry) : Bool := allSameMask T && keysDistinct T
 
 def removeDefaultTable (T : List Entry) (check : Bool) : List Entry :=
   let check := if check then (if noAliasShortcut T then false else true) else false
